@@ -70,7 +70,7 @@ def oracle(case, rec, group):
 
 
 def run(tier, seed):
-    return tracecheck.run(PID, tier, seed, PROFILE, oracle, n_quick=450, n_thorough=8000, require_props=False, mask=1 | 4 | 8, mutation_oracle=True)
+    return tracecheck.run(PID, tier, seed, PROFILE, oracle, n_quick=450, n_thorough=8000, require_props=False, mask=1 | 4 | 8, mutation_oracle=True, level="translation_validation")
 
 
 def replay(payload):
